@@ -670,7 +670,9 @@ class NP2Converter:
         if wg.iw == wg.nwin - 1:
             ind2save[1] = int(self.samples_window / ratio)
 
-        chunk2save = (
+        # round to the nearest integer: the float32 volts / volts-per-bit quotient may fall just short of the
+        # original sample value, which a plain cast would truncate to the next lower count
+        chunk2save = np.rint(
             np.c_[
                 chunk[:, slice(*ind2save)].T
                 / self.sr.channel_conversion_sample2v[etype][: self.napch],
